@@ -30,7 +30,7 @@
 (*         substitution at count/length fields with the verdict of Parse   *)
 (*         (C02)                                                           *)
 (* VSeq is exported as ndjson (one vector per line) and every vector is    *)
-(* also a state of the (trivial) behaviour spec, so that TLC checks the    *)
+(* also an initial state of the (stuttering) behaviour spec, so that TLC checks the    *)
 (* specification's own consistency on each: sizes add up, Parse inverts    *)
 (* Enc, proper prefixes of a packet are never packets, etc.                *)
 (***************************************************************************)
@@ -38,6 +38,7 @@ EXTENDS Integers, Sequences, FiniteSets, TLC, Json, SequencesExt
 
 CONSTANTS Job,       \* "enc" | "dec"
           Sel,       \* set of type names to generate (a shard); "stat" = bare stat record
+          Dialects,  \* subset of BOOLEAN: FALSE = 9P2000, TRUE = 9P2000.u
           Full,      \* TRUE: all classes (thorough); FALSE: reduced stat-string product (quick)
           OutFile    \* ndjson file to write
 
@@ -328,31 +329,41 @@ EncVecStat(dotu, v) ==
 \* bare stat records may be 2 bytes longer than those inside Rstat (no outer n[2])
 StatBareExtra(dotu) == LET k == NStatStrs(dotu) IN
   [h \in 1..k |-> StatVal(StatIntAll(4, dotu), [j \in 1..k |-> Sym(IF j = h THEN StatMaxStr(dotu) + 2 ELSE 0, 64 + 8 * j)], dotu)]
+\* In messages that carry a stat record the other fields (tag, fid) cycle through their classes
+\* instead of multiplying the (already large) covering of the stat classes; all nine
+\* (tag, fid) class pairs occur.
 EncVecsOf(t, dotu) ==
   IF t = "stat" THEN LET vs == StatCls(dotu) \o StatBareExtra(dotu) IN [i \in 1..Len(vs) |-> EncVecStat(dotu, vs[i])]
-  ELSE LET ms == Prod(Layout(t, dotu), 1, dotu) IN
-       IF HasStat(t) THEN [i \in 1..Len(ms) |-> EncVec(t, dotu, TagCls[(i % 3) + 1], ms[i])]
-       ELSE LET mk(tg, m) == EncVec(t, dotu, tg, m) IN Cross(TagCls, ms, mk)
+  ELSE IF HasStat(t)
+       THEN LET sc == StatCls(dotu) IN
+            [i \in 1..Len(sc) |-> EncVec(t, dotu, TagCls[(i % 3) + 1],
+                                         IF t = "Twstat" THEN << IntCls(4)[((i \div 3) % 3) + 1], sc[i] >> ELSE << sc[i] >>)]
+       ELSE LET ms == Prod(Layout(t, dotu), 1, dotu)
+                mk(tg, m) == EncVec(t, dotu, tg, m) IN Cross(TagCls, ms, mk)
 RECURSIVE EncVecs(_)
 EncVecs(sel) == IF sel = <<>> THEN <<>>
-                ELSE EncVecsOf(Head(sel), FALSE) \o EncVecsOf(Head(sel), TRUE) \o EncVecs(Tail(sel))
+                ELSE (IF FALSE \in Dialects THEN EncVecsOf(Head(sel), FALSE) ELSE <<>>)
+                     \o (IF TRUE \in Dialects THEN EncVecsOf(Head(sel), TRUE) ELSE <<>>) \o EncVecs(Tail(sel))
 
 -----------------------------------------------------------------------------
 (* Job "dec": canonical small packets and their mutations *)
 CanonTag == << 18, 52 >>      \* 0x1234
 CanonQid(i) == Q(<< 128 + i >>, << 0, 0, 1, i >>, << 0, 0, 0, 0, 0, 2, 3, i >>)
-CanonF(f, idx) ==
+\* Two canonical packets per type and dialect: variant 1 has short non-empty strings, two names,
+\* two qids, three data bytes; variant 2 ("min") is the smallest packet of the type: empty strings,
+\* no names, no qids, no data.
+CanonF(f, idx, var) ==
   CASE IsInt(f.k)    -> [j \in 1..Width(f.k) |-> IF j = Width(f.k) THEN 16 * idx + 1 ELSE IF j = Width(f.k) - 1 THEN idx ELSE 0]
-    [] f.k = "str"   -> Sym(1 + (idx % 3), 96 + idx)
+    [] f.k = "str"   -> IF var = 1 THEN Sym(1 + (idx % 3), 96 + idx) ELSE Sym(0, 0)
     [] f.k = "qid"   -> CanonQid(idx)
-    [] f.k = "names" -> << Sym(2, 97), Sym(1, 120) >>
-    [] f.k = "qids"  -> << CanonQid(1), CanonQid(2) >>
-    [] f.k = "data"  -> Sym(3, 200)
-CanonStat(dotu) == LET lay == StatLayout(dotu) IN [i \in 1..Len(lay) |-> CanonF(lay[i], i)]
-CanonMsg(t, dotu) == LET lay == Layout(t, dotu) IN
-  [i \in 1..Len(lay) |-> IF lay[i].k = "statn" THEN CanonStat(dotu) ELSE CanonF(lay[i], i)]
-CanonBytes(t, dotu) == IF t = "stat" THEN Flatten(EncStat(CanonStat(dotu), dotu))
-                       ELSE Flatten(Enc(t, dotu, CanonTag, CanonMsg(t, dotu)))
+    [] f.k = "names" -> IF var = 1 THEN << Sym(2, 97), Sym(1, 120) >> ELSE <<>>
+    [] f.k = "qids"  -> IF var = 1 THEN << CanonQid(1), CanonQid(2) >> ELSE <<>>
+    [] f.k = "data"  -> IF var = 1 THEN Sym(3, 200) ELSE Sym(0, 0)
+CanonStat(dotu, var) == LET lay == StatLayout(dotu) IN [i \in 1..Len(lay) |-> CanonF(lay[i], i, var)]
+CanonMsg(t, dotu, var) == LET lay == Layout(t, dotu) IN
+  [i \in 1..Len(lay) |-> IF lay[i].k = "statn" THEN CanonStat(dotu, var) ELSE CanonF(lay[i], i, var)]
+CanonBytes(t, dotu, var) == IF t = "stat" THEN Flatten(EncStat(CanonStat(dotu, var), dotu))
+                            ELSE Flatten(Enc(t, dotu, CanonTag, CanonMsg(t, dotu, var)))
 
 \* sites of count/length fields: [off (1-based), w, cur, name]
 Site(off, w, cur, name) == [off |-> off, w |-> w, cur |-> cur, name |-> name]
@@ -371,10 +382,10 @@ FSites(f, v, off, pre, dotu) ==
 LaySites(lay, m, off, pre, dotu) == IF lay = <<>> THEN <<>>
   ELSE FSites(Head(lay), Head(m), off, pre, dotu)
        \o LaySites(Tail(lay), Tail(m), off + FSize(Head(lay).k, Head(m), dotu), pre, dotu)
-Sites(t, dotu) ==
-  IF t = "stat" THEN << Site(1, 2, StatBody(CanonStat(dotu), dotu), "stat.size") >>
-                     \o LaySites(StatLayout(dotu), CanonStat(dotu), 3, "stat.", dotu)
-  ELSE LaySites(Layout(t, dotu), CanonMsg(t, dotu), 8, "", dotu)
+Sites(t, dotu, var) ==
+  IF t = "stat" THEN << Site(1, 2, StatBody(CanonStat(dotu, var), dotu), "stat.size") >>
+                     \o LaySites(StatLayout(dotu), CanonStat(dotu, var), 3, "stat.", dotu)
+  ELSE LaySites(Layout(t, dotu), CanonMsg(t, dotu, var), 8, "", dotu)
 
 SubVals(s) ==   \* substituted values as [label, little-endian bytes]
   LET small == {0, 1, s.cur - 1, s.cur, s.cur + 1, 16, 255, 256} \cap 0..65535
@@ -386,9 +397,10 @@ SubVals(s) ==   \* substituted values as [label, little-endian bytes]
               << "0xFFFFFFF0", <<240, 255, 255, 255>> >>, << "0xFFFFFFFF", <<255, 255, 255, 255>> >> >>)
 Patch(b, off, bytes) == [i \in 1..Len(b) |-> IF i >= off /\ i < off + Len(bytes) THEN bytes[i - off + 1] ELSE b[i]]
 
-DecVec(t, dotu, kind, arg, b) ==
+DecVecV(t, dotu, var, kind, arg, b) ==
   LET r == IF t = "stat" THEN ParseStat(b, dotu) ELSE Parse(b, dotu) IN
-  [type |-> t, dotu |-> dotu, kind |-> kind, mut |-> kind \o arg, bytes |-> b, ok |-> r.ok,
+  [type |-> t, dotu |-> dotu, var |-> var, kind |-> kind,
+   mut |-> (IF var = 2 THEN "min:" ELSE "") \o kind \o arg, bytes |-> b, ok |-> r.ok,
    size |-> IF r.ok THEN r.size ELSE 0,
    ptype |-> IF r.ok THEN r.type ELSE "",
    tag |-> IF r.ok THEN r.tag ELSE <<>>,
@@ -402,11 +414,12 @@ SizeVals(n) == [i \in 1..(n + 3) |-> << ToString(i - 1), LE(Num(i - 1, 4)) >>]
         << "0xFFFFFFFF", <<255, 255, 255, 255>> >> >>
 TypeVals == << 0, 1, 99, 100, 106, 127, 128, 129, 133, 255 >>
 
-DecVecsOf(t, dotu) ==
-  LET c  == CanonBytes(t, dotu)
+DecVecsOf(t, dotu, var) ==
+  LET c  == CanonBytes(t, dotu, var)
       n  == Len(c)
-      st == Sites(t, dotu)
-      hd == IF t = "stat" THEN 2 ELSE 4 IN
+      st == Sites(t, dotu, var)
+      hd == IF t = "stat" THEN 2 ELSE 4
+      DecVec(tt, dd, kind, arg, b) == DecVecV(tt, dd, var, kind, arg, b) IN
   \* the packet itself, with and without trailing bytes
   << DecVec(t, dotu, "canon", "", c), DecVec(t, dotu, "canon", "+tail", c \o << 0, 0, 0, 0, 0, 0, 0, 0, 0 >>),
      DecVec(t, dotu, "canon", "+tailFF", c \o << 255, 255, 255, 255, 255, 255, 255, 255, 255 >>) >>
@@ -435,18 +448,23 @@ DecVecsOf(t, dotu) ==
       ELSE [i \in 1..Len(TypeVals) |-> DecVec(t, dotu, "type", "=" \o ToString(TypeVals[i]), Patch(c, 5, << TypeVals[i] >>))])
 RECURSIVE DecVecs(_)
 DecVecs(sel) == IF sel = <<>> THEN <<>>
-                ELSE DecVecsOf(Head(sel), FALSE) \o DecVecsOf(Head(sel), TRUE) \o DecVecs(Tail(sel))
+                ELSE (IF FALSE \in Dialects THEN DecVecsOf(Head(sel), FALSE, 1) \o DecVecsOf(Head(sel), FALSE, 2) ELSE <<>>)
+                     \o (IF TRUE \in Dialects THEN DecVecsOf(Head(sel), TRUE, 1) \o DecVecsOf(Head(sel), TRUE, 2) ELSE <<>>)
+                     \o DecVecs(Tail(sel))
 
 -----------------------------------------------------------------------------
 SelSeq == SelectSeq(AllTypes \o << "stat" >>, LAMBDA t : t \in Sel)
 VSeq == IF Job = "enc" THEN EncVecs(SelSeq) ELSE DecVecs(SelSeq)
-ASSUME PrintT(<< "vectors", Job, Len(VSeq) >>)
-ASSUME ndJsonSerialize(OutFile, VSeq)
 
-VARIABLE i
-Init == i \in 1..Len(VSeq)
-Next == UNCHANGED i
-Spec == Init /\ [][Next]_i
+\* Every vector is one initial state.  VSeq is evaluated once (TLC does not cache it as a constant),
+\* exported, and then enumerated.
+VARIABLE vec
+Init == LET V == VSeq IN
+        /\ PrintT(<< "vectors", Job, Len(V) >>)
+        /\ ndJsonSerialize(OutFile, V)
+        /\ \E j \in 1..Len(V) : vec = V[j]
+Next == UNCHANGED vec
+Spec == Init /\ [][Next]_vec
 
 (* Consistency of the specification itself, checked on every vector *)
 SmallLimit == 700
@@ -464,9 +482,9 @@ EncOK(v) ==
        ELSE LET r == Parse(b, v.dotu) IN
             /\ r.ok /\ r.size = v.size /\ r.type = v.type /\ r.tag = v.tag
             /\ r.vals = ConcM(Layout(v.type, v.dotu), vals, v.dotu)
-            /\ ~Parse(b, ~v.dotu).ok <=> Layout(v.type, TRUE) # Layout(v.type, FALSE)   \* dialects differ exactly there
+            /\ ~Parse(b, ~v.dotu).ok <=> (HasStat(v.type) \/ Layout(v.type, TRUE) # Layout(v.type, FALSE))  \* dialects differ exactly there
 DecOK(v) ==
-  LET c == CanonBytes(v.type, v.dotu)
+  LET c == CanonBytes(v.type, v.dotu, v.var)
       P(b) == IF v.type = "stat" THEN ParseStat(b, v.dotu) ELSE Parse(b, v.dotu) IN
   /\ v.ok => /\ v.size <= Len(v.bytes)
              /\ v.type # "stat" => v.size >= 7
@@ -479,5 +497,5 @@ DecOK(v) ==
   \* the canonical packet is well-formed exactly when its declared size is its length
   /\ v.kind = "canon" => v.ok /\ v.size = Len(c)
   /\ v.kind = "size" => (v.ok <=> LEInt(v.bytes, 1, 4) = Num(Len(c), 4))
-VecOK == IF Job = "enc" THEN EncOK(VSeq[i]) ELSE DecOK(VSeq[i])
+VecOK == IF Job = "enc" THEN EncOK(vec) ELSE DecOK(vec)
 =============================================================================
